@@ -7,6 +7,7 @@ use crate::Sink;
 pub const GOV_CHAIN: &[u8] = b"axelarnet";
 pub const GOV_ADDR: &[u8] = b"axelar10govaddress";
 const TOKENS: [&str; 2] = ["TOK-aaaaaa", "OTH-bbbbbb"];
+const SFT: &str = "SFT-dddddd";
 
 #[derive(Clone)]
 pub struct Proposal {
@@ -76,7 +77,7 @@ pub fn gen(rng: &mut Rng, n: usize, sink: &mut Sink, focus: &str) {
     while sink.count < n {
         let gw = gateway::setup_with_sets(rng, sink); // does `reset`, funds users 0..4, deploys the gateway
         for i in 0..6 {
-            sink.exec(&format!("acct {} 1000000 {}:0:1000000,{}:0:1000000", hex::encode(user(i)), TOKENS[0], TOKENS[1]));
+            sink.exec(&format!("acct {} 1000000 {}:0:1000000,{}:0:1000000,{}:5:1000,{}:6:1000", hex::encode(user(i)), TOKENS[0], TOKENS[1], SFT, SFT));
         }
         let gaddr = sc("governance");
         let min_delay = if focus == "C16" { *rng.pick(&[0u64, 0, 0, 100]) } else { *rng.pick(&[0u64, 0, 100, 1000]) };
@@ -189,7 +190,9 @@ pub fn gen(rng: &mut Rng, n: usize, sink: &mut Sink, focus: &str) {
                         sink.exec(&format!("time {}", now));
                     }
                 }
-                let (egld, esdt) = match rng.below(if focus == "C16" { 4 } else { 6 }) {
+                let (egld, esdt) = match rng.below(if focus == "C16" { 6 } else { 8 }) {
+                    4 => ("0".to_string(), format!("{}:5:40", SFT)), // semi-fungible: non-zero nonce
+                    5 => ("0".to_string(), format!("{}:5:3,{}:0:7,{}:6:2", SFT, TOKENS[0], SFT)),
                     0 => ("25".to_string(), "-".to_string()),
                     1 => ("0".to_string(), format!("{}:0:40", TOKENS[0])),
                     2 => ("0".to_string(), format!("{}:0:10,{}:0:20,{}:0:5", TOKENS[0], TOKENS[1], TOKENS[0])),
@@ -256,8 +259,9 @@ pub fn gen(rng: &mut Rng, n: usize, sink: &mut Sink, focus: &str) {
                     0 | 1 => {
                         // withdraw a refund credit
                         let u = user(rng.below(6) as u8);
-                        let tok = *rng.pick(&["EGLD", TOKENS[0], TOKENS[1]]);
-                        sink.exec(&format!("tx {} {} withdrawRefundToken 0 - {}", hex::encode(&u), hex::encode(&gaddr), args(&[token_arg(tok, 0)])));
+                        let tok = *rng.pick(&["EGLD", TOKENS[0], TOKENS[1], SFT, SFT]);
+                        let nonce = if tok == SFT { *rng.pick(&[5u64, 6, 0]) } else { 0 };
+                        sink.exec(&format!("tx {} {} withdrawRefundToken 0 - {}", hex::encode(&u), hex::encode(&gaddr), args(&[token_arg(tok, nonce)])));
                     }
                     2 => {
                         let c = if rng.chance(1, 2) { operator.clone() } else { user(rng.below(6) as u8) };
@@ -281,10 +285,12 @@ pub fn gen(rng: &mut Rng, n: usize, sink: &mut Sink, focus: &str) {
             }
             // observations: refund credits and balances
             let u = user(rng.below(6) as u8);
-            let tok = *rng.pick(&["EGLD", TOKENS[0], TOKENS[1]]);
-            sink.exec(&format!("query {} getRefundToken {}", hex::encode(&gaddr), args(&[u.clone(), token_arg(tok, 0)])));
-            sink.exec(&format!("bal {} {}", hex::encode(&u), tok));
-            sink.exec(&format!("bal {} {}", hex::encode(&gaddr), tok));
+            let tok = *rng.pick(&["EGLD", TOKENS[0], TOKENS[1], SFT]);
+            let nonce = if tok == SFT { *rng.pick(&[5u64, 6, 0]) } else { 0 };
+            sink.exec(&format!("query {} getRefundToken {}", hex::encode(&gaddr), args(&[u.clone(), token_arg(tok, nonce)])));
+            let btok = if nonce == 0 { tok.to_string() } else { format!("{}/{}", tok, nonce) };
+            sink.exec(&format!("bal {} {}", hex::encode(&u), btok));
+            sink.exec(&format!("bal {} {}", hex::encode(&gaddr), btok));
         }
     }
 }
